@@ -3,7 +3,7 @@ import json, os, sys, time, hashlib, traceback, re
 
 ROOT = os.path.dirname(os.path.dirname(os.path.abspath(__file__)))
 REPO = os.environ.get("NMFU_REPO", "/repo")
-EVID = os.path.join(ROOT, "evidence")
+EVID = os.environ.get("VERIF_EVIDENCE_DIR") or os.path.join(ROOT, "evidence")   # (the seeded-mutant runner redirects evidence so that committed evidence stays from clean runs)
 REPLAYS = os.path.join(ROOT, "replays")
 KNOWN = os.path.join(ROOT, "known_findings.json")
 
